@@ -1,8 +1,157 @@
-/- line-protocol handlers for the C09 models (stub: nothing modelled yet) -/
-import FontVerif.Model.Base
+/- line-protocol handlers for the C09 models (Model/Glyf.lean) -/
+import FontVerif.Model.Glyf
 namespace FontVerif.Drv.C09
-open FontVerif
+open FontVerif FontVerif.Glyf
 
-def handle (_cmd : String) (_args : List String) : Option String := none
+/-! token parser: every spec is self-delimiting -/
+abbrev P := StateT (List String) Option
+
+def tok : P String := fun s => match s with
+  | [] => none
+  | t :: r => some (t, r)
+
+def pInt : P Int := do let t ← tok; match parseInt? t with | some v => pure v | none => failure
+def pNat : P Nat := do let t ← tok; match parseNat? t with | some v => pure v | none => failure
+def pHex : P (List Nat) := do let t ← tok; match parseHex? t with | some v => pure v | none => failure
+
+def pMany {α} (p : P α) : Nat → P (List α)
+  | 0 => pure []
+  | n + 1 => do let a ← p; let r ← pMany p n; pure (a :: r)
+
+def pPoint : P Point := do
+  let x ← pInt; let y ← pInt; let o ← pNat
+  if o > 1 then failure else pure ⟨x, y, o == 1⟩
+
+/-- `<xMin> <yMin> <xMax> <yMax> <instrhex> <k> <len_1>..<len_k> <x y on>*` -/
+def pSimple : P SimpleGlyph := do
+  let a ← pInt; let b ← pInt; let c ← pInt; let d ← pInt
+  let ins ← pHex
+  let k ← pNat
+  let lens ← pMany pNat k
+  let contours ← lens.mapM (fun n => pMany pPoint n)
+  pure ⟨a, b, c, d, contours, ins⟩
+
+def pAnchor : P Anchor := do
+  let k ← tok
+  match k with
+  | "o" => do let x ← pInt; let y ← pInt; pure (.offset x y)
+  | "p" => do let x ← pNat; let y ← pNat; pure (.point x y)
+  | _ => failure
+
+/-- `<glyph> <o x y | p base comp> <userflags 0..31> <xx> <yx> <xy> <yy>` -/
+def pComponent : P Component := do
+  let g ← pNat
+  let a ← pAnchor
+  let uf ← pNat
+  if uf > 31 then failure else
+  let xx ← pInt; let yx ← pInt; let xy ← pInt; let yy ← pInt
+  pure ⟨g, a, ⟨uf % 2 == 1, uf / 2 % 2 == 1, uf / 4 % 2 == 1, uf / 8 % 2 == 1, uf / 16 % 2 == 1⟩,
+        ⟨xx, yx, xy, yy⟩⟩
+
+/-- `<xMin> <yMin> <xMax> <yMax> <instrhex> <n> <component>*` -/
+def pComposite : P CompositeGlyph := do
+  let a ← pInt; let b ← pInt; let c ← pInt; let d ← pInt
+  let ins ← pHex
+  let n ← pNat
+  let cs ← pMany pComponent n
+  pure ⟨a, b, c, d, cs, ins⟩
+
+def pGlyph : P Glyph := do
+  let k ← tok
+  match k with
+  | "E" => pure .empty
+  | "S" => do let g ← pSimple; pure (.simple g)
+  | "C" => do let g ← pComposite; pure (.composite g)
+  | _ => failure
+
+def runAll {α} (p : P α) (args : List String) : Option α :=
+  match p args with
+  | some (a, []) => some a
+  | _ => none
+
+partial def pGlyphs : P (List Glyph) := fun s =>
+  match s with
+  | [] => some ([], [])
+  | _ => match pGlyph s with
+    | none => none
+    | some (g, r) => match pGlyphs r with
+      | none => none
+      | some (gs, r') => some (g :: gs, r')
+
+/-! rendering -/
+
+def showWrite : WriteResult → String
+  | .ok b => toHex b
+  | .invalid => "invalid"
+  | .trap => "trap"
+
+def showPoints (ps : List Point) : String :=
+  joinInts (ps.flatMap (fun p => [p.x, p.y, if p.on then 1 else 0]))
+
+def showFast : Option (List (Int × Int × Nat)) → String
+  | none => "err"
+  | some l => joinInts (l.flatMap (fun t => [t.1, t.2.1, (t.2.2 : Int)]))
+
+def showSimple (v : SimpleView) : String :=
+  s!"{v.nContours} {v.xMin} {v.yMin} {v.xMax} {v.yMax} | {joinNats v.endPts} | {toHex v.instructions} | {showPoints v.points} | {showFast v.readPointsFast}"
+
+def showAnchor : Anchor → String
+  | .offset x y => s!"o {x} {y}"
+  | .point b c => s!"p {b} {c}"
+
+def showRComponent (c : RComponent) : String :=
+  s!"{c.flags} {c.glyph} {showAnchor c.anchor} {c.transform.xx} {c.transform.yx} {c.transform.xy} {c.transform.yy}"
+
+def showComposite (v : CompositeView) : String :=
+  let cs := if v.components.isEmpty then "-" else " ; ".intercalate (v.components.map showRComponent)
+  let ins := match v.instructions with | none => "none" | some b => toHex b
+  s!"{v.xMin} {v.yMin} {v.xMax} {v.yMax} | {cs} | {v.count} | {ins}"
+
+/-- `Glyph::read`: dispatch on the sign of the first i16. -/
+def showGlyphRead (data : List Nat) : String :=
+  match i16At data 0 with
+  | none => "err"
+  | some nc =>
+    if nc ≥ 0 then
+      match readSimple data with
+      | none => "err"
+      | some v => "S " ++ showSimple v
+    else
+      match readComposite data with
+      | none => "err"
+      | some v => "C " ++ showComposite v
+
+def handle (cmd : String) (args : List String) : Option String :=
+  match cmd with
+  | "g.write" => (runAll pGlyph args).map (fun g => showWrite (writeGlyph g))
+  | "g.read" =>
+    match args with
+    | [h] => (parseHex? h).map showGlyphRead
+    | _ => none
+  | "loca.write" =>
+    (if args = ["-"] then some [] else parseNats? args).map (fun offs =>
+      (if locaIsLong offs then "L " else "S ") ++ toHex (writeLoca offs))
+  | "loca.get" =>
+    match args with
+    | [l, lh, gh, gid] =>
+      match parseNat? l, parseHex? lh, parseHex? gh, parseNat? gid with
+      | some l, some lb, some glyf, some gid =>
+        if l > 1 then none else
+        some (match readLoca lb (l == 1) with
+          | none => "err"
+          | some raw =>
+            match getGlyf raw glyf gid with
+            | .err => "err"
+            | .none => "none"
+            | .bytes s d => if showGlyphRead d = "err" then "err" else s!"{s} {d.length}")
+      | _, _, _, _ => none
+    | _ => none
+  | "build" =>
+    (runAll pGlyphs args).map (fun gs =>
+      match build gs with
+      | none => "fail"
+      | some (glyf, loca) =>
+        (if locaIsLong loca then "L " else "S ") ++ toHex (writeLoca loca) ++ " " ++ toHex glyf)
+  | _ => none
 
 end FontVerif.Drv.C09
